@@ -54,6 +54,8 @@ func init() {
 }
 
 func runC20(c *Ctx, r *Report) {
+	r.Rule("C20/ansi-bounded", "what the read loop strips before queueing cannot span ordinary output: no unbounded repetition of the escape-sequence pattern admits ESC or newline", 1)
+	checkANSIPatternBounded(c, r, "C20/ansi-bounded")
 	r.Rule("C20/locked", "every access to Queue.queue / Queue.depth holds Queue.lock (write lock for writes)", 15)
 	r.Rule("C20/token", "mailbox is 1-slot and primed once; every receive from it is followed on all paths by exactly one send, with no lock acquisition or other channel operation in between", 3)
 	r.Rule("C20/republish", "every method that changes the list also stores depth and then sends that depth to the mailbox on every path to its return", 4)
